@@ -131,6 +131,16 @@ def judge(case, res, known):
             continue
         mon = st.get('mon') or {}
         fids = {}
+        sr = mon.get('session_refused')
+        if isinstance(sr, dict) and str(sr.get('msg', '')).startswith('cannot commit incomplete migration') \
+                and mon.get('commit', 'eq') == 'eq':
+            # the server path refuses its own computed migration while the library path reaches the target.
+            # Only the recorded class is reported (as a known finding); other refusals are evidence only.
+            fid = 'C02-server-populate-residual-after-parent-rename'
+            if fid in known:
+                out.append(('known', fid, 'START / POPULATE / COMMIT MIGRATION through the server compiler is refused '
+                            '("cannot commit incomplete migration") although CREATE MIGRATION {computed DDL} reaches the target',
+                            {'case': slim(case), 'step': i, 'observed': sr}))
         for form in ('commit', 'text', 'tree', 'session', 'interactive'):
             v = mon.get(form, 'eq')
             if v == 'eq':
